@@ -14,13 +14,13 @@ import (
 
 // ---- pools -------------------------------------------------------------------------------
 
-var SmallStr = []string{"a", "b", "read", "write", "file1", "file2", "/a/file1.txt", "/a/file2.txt", "admin", "Read", "", "é", "resource", "x"}
+var SmallStr = []string{"a", "b", "read", "write", "file1", "file2", "/a/file1.txt", "/a/file2.txt", "admin", "Read", "", "é", "resource", "x", "100%", "/my%20files"}
 var SmallInt = []int64{0, 1, 2, 3, 4, 10, -1}
 var BoundInt = []int64{math.MinInt64, math.MinInt64 + 1, -1 << 32, -1 << 31, -2, -1, 0, 1, 2, 1 << 31, 1 << 32, math.MaxInt64 - 1, math.MaxInt64}
 var SmallDate = []uint64{0, 1, 1000, 1600000000, 1700000000, 1 << 31}
 var BoundDate = []uint64{0, 1, 1 << 31, 1 << 32, 1<<63 - 1, 1 << 63, math.MaxUint64}
 var SmallBytes = [][]byte{{}, {0}, {1}, {0x41}, {0x41, 0x42}, {0xff, 0x00, 0x7f}}
-var HardStr = []string{"", "a", "ab", "abc", "é", "日本", "a.b", "^a", "a$", "(", "[a-z]+", "\\", "a\"b", "read", "\x00", "a\nb", "aaaaaaaaaaaaaaaaaaaaaaaaaaaaaaaa"}
+var HardStr = []string{"", "a", "ab", "abc", "é", "日本", "a.b", "^a", "a$", "(", "[a-z]+", "\\", "a\"b", "read", "\x00", "a\nb", "aaaaaaaaaaaaaaaaaaaaaaaaaaaaaaaa", "%s", "%d%%", "50%off", "%!v(MISSING)"}
 
 func Pick[T any](r *rand.Rand, xs []T) T { return xs[r.Intn(len(xs))] }
 
@@ -73,6 +73,24 @@ func SetOf(r *rand.Rand, k ast.Kind, n int, hard bool) ast.Term {
 			e = HardScalar(r, k)
 		} else {
 			e = Scalar(r, k)
+		}
+		if !seen[e.Key()] {
+			seen[e.Key()] = true
+			out.Set = append(out.Set, e)
+		}
+	}
+	// the pools are small: top up with synthesized distinct values when a larger set is asked for
+	for i := 0; len(out.Set) < n && k != ast.KBool; i++ {
+		var e ast.Term
+		switch k {
+		case ast.KInt:
+			e = ast.Int(int64(1000 + i))
+		case ast.KStr:
+			e = ast.Str(fmt.Sprintf("elem%d", i))
+		case ast.KDate:
+			e = ast.Date(uint64(5000 + i))
+		default:
+			e = ast.Bytes([]byte{byte(i), byte(7 * i), 0x42})
 		}
 		if !seen[e.Key()] {
 			seen[e.Key()] = true
